@@ -13,7 +13,7 @@ import valgen
 import xv
 from xv import log
 
-CORPUS_VERSION = "23"
+CORPUS_VERSION = "24"
 
 BOUNDARY = [0, 1, 2, 3, 0xffff, 0x10000, 0x7fffffff, 0x80000000, 0xfffffffe, 0xffffffff]
 
@@ -165,6 +165,10 @@ def quick_specs(seed, tier):
         # a counted array reachable from its own element type (finding F15: every nesting level
         # reserves min(count, remaining) elements, so the total is quadratic in the input)
         "struct tnest { unsigned int v; tnest kids<>; };\n",
+        # several optional links of the struct's own type (binary tree, prev/next): whatever walks
+        # "the" link must walk all of them
+        "struct tnode { int v; tnode *left; tnode *right; };\nstruct forest { tnode trees<>; unsigned int trailer; };\n"
+        "struct dl { dl *prev; opaque tag<4>; dl *next; unsigned hyper id; };\n",
     ]
     out += [("fixed", s) for s in fixed]
     out += [("elem", s) for s in ELEM_SPECS]
